@@ -207,6 +207,24 @@ Proof. intro H. unfold trim_suffix_char. destruct (last_char s) as [a|]; [|exact
 Lemma trim_len d s : (nlen (trim_suffix_char d s) <= nlen s)%N.
 Proof. unfold trim_suffix_char. destruct (last_char s) as [a|]; [|lia]. destruct (Ascii.eqb a d); [apply drop_last_len|lia]. Qed.
 
+Lemma trim_right_has c d s : has_char c s = false -> has_char c (trim_right_char d s) = false.
+Proof.
+  induction s as [|a s IH]; [reflexivity|]. cbn [has_char trim_right_char]. intro H. apply orb_false_iff in H. destruct H as [H1 H2].
+  specialize (IH H2). destruct (trim_right_char d s) as [|b r].
+  - destruct (Ascii.eqb a d); [reflexivity|]. cbn [has_char]. rewrite H1. reflexivity.
+  - change (has_char c (String a (String b r))) with (Ascii.eqb a c || has_char c (String b r)). rewrite H1. exact IH.
+Qed.
+Lemma trim_right_len d s : (nlen (trim_right_char d s) <= nlen s)%N.
+Proof.
+  induction s as [|a s IH]; [reflexivity|]. cbn [trim_right_char]. destruct (trim_right_char d s) as [|b r].
+  - destruct (Ascii.eqb a d); cbn [nlen] in *; lia.
+  - cbn [nlen] in *. lia.
+Qed.
+Lemma dir_trim_has c s : has_char c s = false -> has_char c (dir_trim s) = false.
+Proof. intro H. unfold dir_trim. destruct installed_dir_trim_all; [apply trim_right_has, H|apply trim_has, H]. Qed.
+Lemma dir_trim_len s : (nlen (dir_trim s) <= nlen s)%N.
+Proof. unfold dir_trim. destruct installed_dir_trim_all; [apply trim_right_len|apply trim_len]. Qed.
+
 Lemma split_on_has c d s : has_char c s = false -> Forall (fun x => has_char c x = false) (split_on d s).
 Proof.
   induction s as [|a s IH]; [repeat constructor|]. cbn [has_char split_on]. intro H. apply orb_false_iff in H. destruct H as [H1 H2].
@@ -287,7 +305,7 @@ Lemma file_head_fits max h : (49 <= max)%N -> id_ok h -> file_fields_fit max h -
 Proof.
   intros M Hid [H1 H2 H3 _]. unfold file_head, perm_items. destruct (h_isdir h).
   - constructor.
-    + apply (name_fits max "F"); [reflexivity|apply trim_has, H1|apply trim_has, H2|]. pose proof (trim_len ch_slash (h_name h)). lia.
+    + apply (name_fits max "F"); [reflexivity|apply dir_trim_has, H1|apply dir_trim_has, H2|]. pose proof (dir_trim_len (h_name h)). lia.
     + destruct (negb _); cbn [opt_line]; constructor; [apply (perm_line_fits max "M"); [exact M|reflexivity|exact Hid]|constructor].
   - constructor.
     + apply (name_fits max "R"); [reflexivity|apply path_base_has; [exact H1|reflexivity|reflexivity]|apply path_base_has; [exact H2|reflexivity|reflexivity]|].
